@@ -111,7 +111,7 @@ def run_seed(patch, props):
         out = {}
         for q in props:
             c = subprocess.run([sys.executable, os.path.join(VERIF, "check.py"), q, "--src", d, "--json", "--no-evidence"],
-                               stdout=subprocess.PIPE, stderr=subprocess.STDOUT, text=True)
+                               stdout=subprocess.PIPE, stderr=subprocess.STDOUT, text=True, env=dict(os.environ, WV_FACTS_REUSE="1"))
             keys = []
             got_json = False
             for line in c.stdout.splitlines():
